@@ -26,7 +26,7 @@ def run(rep: Report, replay: dict | None) -> None:
     try:
         hrng = random.Random(rep.seed * 7907 + 5)
         styles = ["block", "kitty", "iterm2"]
-        n = 60 if rep.tier == "quick" else 1200
+        n = 200 if rep.tier == "quick" else 2500
         length = 28 if rep.tier == "quick" else 40
         traces = []
         for i in range(n):
